@@ -224,7 +224,6 @@ def scan_counters(u):
             yield (fname, v.name, v, {'bad': bad, 'incs': incs, 'init_const': init_const})
 
 
-SUBINT = ('char', 'signed char', 'unsigned char', 'short', 'unsigned short', '_Bool', 'bool')
 U64 = ('unsigned long', 'unsigned long long', 'size_t', 'uint64_t', 'uintptr_t')
 
 
@@ -262,8 +261,13 @@ def scan_selfapp(u):
                             continue    # condition, not a discarded value
                         if n.kind == 'DoStmt' and c is n.inner[-1]:
                             continue
-                        if n.kind == 'ForStmt' and c is not n.inner[-1] and c.kind != 'CallExpr' and False:
-                            continue
+                        if n.kind == 'ForStmt':
+                            raw = n.d.get('inner', [])
+                            slots, itr = [], iter(n.inner)
+                            for r in raw:
+                                slots.append(next(itr) if (isinstance(r, dict) and r) else None)
+                            if len(slots) >= 3 and slots[2] is c:
+                                continue    # loop condition
                         top = c.strip()
                         if top.kind == 'BinaryOperator' and top.opcode == '=':
                             continue    # a long double assignment statement is balanced (the assignment pops, the statement does not)
